@@ -42,6 +42,20 @@ class UserError(TartifletteError):
     """a library-derived exception raised by resolvers (C02 iv)"""
 
 
+SHARED_ERROR = None
+SHARED_PLAIN_ERROR = None
+
+
+def fresh_shared_errors():
+    """one exception *object* that several resolvers / requests raise (a module-level constant in user code)"""
+    global SHARED_ERROR, SHARED_PLAIN_ERROR
+    SHARED_ERROR = UserError("shared dev message", user_message="shared user message", extensions={"code": "SHARED"})
+    SHARED_PLAIN_ERROR = ValueError("shared plain error")
+
+
+fresh_shared_errors()
+
+
 def fresh_name(prefix="vf"):
     return "%s_%d" % (prefix, next(_names))
 
@@ -62,6 +76,10 @@ def make_resolver(fq):
             if fault == "raise_te":
                 raise UserError("dev message", user_message="user message %s" % (list(path),),
                                 extensions={"code": "E42", "where": list(path)})
+            if fault == "raise_shared":
+                raise SHARED_ERROR
+            if fault == "raise_shared_plain":
+                raise SHARED_PLAIN_ERROR
             if fault == "return_exc":
                 return Exception("returned at %s" % (list(path),))
             if fault == "none":
